@@ -100,13 +100,14 @@ func (c class) nPlain() int {
 
 // timing lists (amd/tests/acceptance/cases.go)
 const (
-	tlFull    = "full"     // the 20 gcn3/r9nano timing classes: {1},{1,2},{1,2,3,4} x plain/unified GPU x device/unified memory
-	tlBFS     = "bfs"      // bfs: {1} and unified {1,2},{1,2,3,4}, device + unified memory (no plain multi-GPU)
-	tlSPMV    = "spmv"     // spmv: all GPU sets, device memory only
-	tlNone    = "unlisted" // workload does not appear in the matrix: every gcn3/r9nano class it is capable of
-	tlVecAdd  = "vectoradd" // cdna3/mi300a: {1}, unified {1,2}, unified {1,2,3,4}, device memory (the only mi300a timing entries)
-	oVerify   = "verify"     // oracle = Benchmark.Verify() (runner -verify)
-	oCross    = "crosscheck" // oracle = gputensor operator cross-check against tensor.CPUOperator (Verify() is "not implemented" / empty)
+	tlFull    = "full"              // the 20 gcn3/r9nano timing classes: {1},{1,2},{1,2,3,4} x plain/unified GPU x device/unified memory
+	tlBFS     = "bfs"               // bfs: {1} and unified {1,2},{1,2,3,4}, device + unified memory (no plain multi-GPU)
+	tlSPMV    = "spmv"              // spmv: all GPU sets, device memory only
+	tlNone    = "unlisted"          // workload does not appear in the matrix: every gcn3/r9nano class it is capable of
+	tlSingle  = "unlisted-single"   // not in the matrix and far too slow in timing mode beyond one GPU (150-900 s per run): single GPU, device memory only
+	tlVecAdd  = "vectoradd"         // cdna3/mi300a: {1}, unified {1,2}, unified {1,2,3,4}, device memory (the only mi300a timing entries)
+	oVerify   = "verify"            // oracle = Benchmark.Verify() (runner -verify)
+	oCross    = "crosscheck"        // oracle = gputensor operator cross-check against tensor.CPUOperator (Verify() is "not implemented" / empty)
 	oCrossVer = "crosscheck+verify" // -verify: runner calls EnableVerification() (operator cross-check), Verify() itself is empty
 )
 
@@ -122,17 +123,47 @@ type workload struct {
 	Sizes [][]int
 	// TimingMax: vectors with cost() above this are not used in timing mode
 	// (cost control only; admissibility is decided by Adm).
-	Cost      func(p []int) int
-	Admit     string // human-readable admissibility rule + source
-	Adm       func(p []int, c class) bool
-	PlainMulti bool  // SelectGPU accepts several plain GPUs (false: the package panics "does not support multi-GPU")
-	Splits     bool  // host code splits the work over its gpus
-	UnifiedMem bool  // SetUnifiedMemory supported
+	Cost       func(p []int) int
+	Admit      string // human-readable admissibility rule + source
+	Adm        func(p []int, c class) bool
+	PlainMulti bool // SelectGPU accepts several plain GPUs (false: the package panics "does not support multi-GPU")
+	Splits     bool // host code splits the work over its gpus
+	UnifiedMem bool // SetUnifiedMemory supported
 	TimingList string
 	Oracle     string
 	Build      func(d *driver.Driver, a arch.Type, p []int) benchmarks.Benchmark
 	NeedsMNIST bool
 	Runnable   bool // false: linked but cannot run here (reason in Admit)
+	// Quar names the region of a listed known finding that (p, c) lies in
+	// ("" = none). Quarantined regions are not drawn by the seeded planner
+	// (every run there fails for the listed reason and would need a key of its
+	// own per class); fixed representatives of every region are part of the
+	// canonical battery, so the finding stays observed on every run. The tag is
+	// appended to the violation key.
+	Quar func(p []int, c class) string
+}
+
+// quarantine = workload-specific regions + the two class-wide regions.
+func (w *workload) quarantine(p []int, c class) string {
+	if c.Timing && c.Arch == "gcn3" && !c.UnifiedGPU && c.NGPU > 1 && c.UnifiedMem {
+		// every workload: the timing platform builder leaves
+		// CommandProcessor.Driver nil, the first page migration dereferences it
+		return "timing-plain-multi-gpu-unified-memory"
+	}
+	if w.Quar != nil {
+		return w.Quar(p, c)
+	}
+	return ""
+}
+
+// hipIgnoresGlobalOffset: cdna3 + plain multi-GPU for workloads whose host
+// code splits the grid over the GPUs through HiddenGlobalOffsetX while the HIP
+// kernel computes its index from blockIdx*blockDim+threadIdx.
+func hipIgnoresGlobalOffset(p []int, c class) string {
+	if c.Arch == "cdna3" && !c.UnifiedGPU && c.NGPU > 1 {
+		return "cdna3-plain-multi-gpu-split-by-global-offset"
+	}
+	return ""
 }
 
 func at(a arch.Type) arch.Type { return a }
@@ -147,10 +178,11 @@ func workloads() []*workload {
 		{
 			Name: "vectoradd", Suite: "amdappsdk", Archs: []string{"cdna3"}, // only a gfx942 code object is shipped (kernels.hsaco is the HIP build; no Arch field)
 			ParamNames: []string{"width", "height"}, Anchor: []int{4096, 1}, AnchorSrc: "cases.go: -width=4096 -height=1",
-			Sizes: [][]int{{64, 1}, {128, 1}, {64, 3}, {1088, 1}, {4096, 1}},
-			Admit: "width*height must be a multiple of 64*nGPUs: native/vectoradd.cpp guards i<width*height but the host launches exactly numData/nGPUs work-items with HiddenBlockCountX=gridSize/64 (no rounding up), so a ragged tail would simply not be launched",
-			Adm:   func(p []int, c class) bool { return p[0]*p[1]%(64*c.nPlain()) == 0 },
+			Sizes:      [][]int{{64, 1}, {128, 1}, {64, 3}, {1088, 1}, {4096, 1}},
+			Admit:      "width*height must be a multiple of 64*nGPUs: native/vectoradd.cpp guards i<width*height but the host launches exactly numData/nGPUs work-items with HiddenBlockCountX=gridSize/64 (no rounding up), so a ragged tail would simply not be launched",
+			Adm:        func(p []int, c class) bool { return p[0]*p[1]%(64*c.nPlain()) == 0 },
 			PlainMulti: true, Splits: true, UnifiedMem: true, TimingList: tlVecAdd, Oracle: oVerify,
+			Quar: hipIgnoresGlobalOffset,
 			Build: func(d *driver.Driver, a arch.Type, p []int) benchmarks.Benchmark {
 				b := vectoradd.NewBenchmark(d)
 				b.Width, b.Height = uint32(p[0]), uint32(p[1])
@@ -160,11 +192,20 @@ func workloads() []*workload {
 		{
 			Name: "bitonicsort", Suite: "amdappsdk", Archs: both,
 			ParamNames: []string{"length"}, Anchor: []int{1024}, AnchorSrc: "sample default (matrix entry -length=4096 is commented out)",
-			Sizes: [][]int{{2}, {64}, {256}, {1024}, {2048}},
-			Admit: "length must be a power of two >= 2 (kernels.cl has no guard, the pairing arithmetic needs 2^k); grid = length/2 exactly, split evenly (+remainder to the last queue) by the host, so length/2 >= nGPUs",
-			Adm:   func(p []int, c class) bool { return pow2(p[0]) && p[0] >= 2 && p[0]/2 >= c.nPlain() },
-			Cost:  func(p []int) int { return p[0] * 12 },
+			Sizes:      [][]int{{2}, {64}, {256}, {1024}, {2048}},
+			Admit:      "length must be a power of two >= 2 (kernels.cl has no guard, the pairing arithmetic needs 2^k); grid = length/2 exactly, split evenly (+remainder to the last queue) by the host, so length/2 >= nGPUs",
+			Adm:        func(p []int, c class) bool { return pow2(p[0]) && p[0] >= 2 && p[0]/2 >= c.nPlain() },
+			Cost:       func(p []int) int { return p[0] * 12 },
 			PlainMulti: true, Splits: true, UnifiedMem: true, TimingList: tlNone, Oracle: oVerify,
+			Quar: func(p []int, c class) string {
+				if t := hipIgnoresGlobalOffset(p, c); t != "" {
+					return t
+				}
+				if c.Arch == "gcn3" && c.Timing && p[0] >= 256 {
+					return "gcn3-timing-two-or-more-work-groups"
+				}
+				return ""
+			},
 			Build: func(d *driver.Driver, a arch.Type, p []int) benchmarks.Benchmark {
 				b := bitonicsort.NewBenchmark(d)
 				b.Arch, b.Length, b.OrderAscending = a, p[0], true
@@ -174,9 +215,9 @@ func workloads() []*workload {
 		{
 			Name: "fastwalshtransform", Suite: "amdappsdk", Archs: both,
 			ParamNames: []string{"length"}, Anchor: []int{1024}, AnchorSrc: "sample default (not in the matrix)",
-			Sizes: [][]int{{2}, {64}, {512}, {1024}, {2048}},
-			Admit: "length must be a power of two >= 2 (no guard in FastWalshTransform_Kernels.cl; grid = length/2 exactly, work-group 256, partial group formed by the grid builder). Plain multi-GPU excluded: the host enqueues the complete transform on every queue over the same array (no split)",
-			Adm:   func(p []int, c class) bool { return pow2(p[0]) && p[0] >= 2 },
+			Sizes:      [][]int{{2}, {64}, {512}, {1024}, {2048}},
+			Admit:      "length must be a power of two >= 2 (no guard in FastWalshTransform_Kernels.cl; grid = length/2 exactly, work-group 256, partial group formed by the grid builder). Plain multi-GPU excluded: the host enqueues the complete transform on every queue over the same array (no split)",
+			Adm:        func(p []int, c class) bool { return pow2(p[0]) && p[0] >= 2 },
 			PlainMulti: false, Splits: false, UnifiedMem: true, TimingList: tlNone, Oracle: oVerify,
 			Build: func(d *driver.Driver, a arch.Type, p []int) benchmarks.Benchmark {
 				b := fastwalshtransform.NewBenchmark(d)
@@ -187,10 +228,10 @@ func workloads() []*workload {
 		{
 			Name: "floydwarshall", Suite: "amdappsdk", Archs: both,
 			ParamNames: []string{"node", "iter"}, Anchor: []int{16, 0}, AnchorSrc: "sample default (matrix passes no size)",
-			Sizes: [][]int{{8, 0}, {16, 0}, {16, 5}, {24, 0}, {40, 3}},
-			Admit: "node must be a multiple of the 8x8 block: exec() rounds the grid AND the numNodes kernel argument up to a multiple of 8 while the buffers keep node*node elements (no guard in FloydWarshall_Kernels.cl); iter 0 or > node means node iterations (sample). Plain multi-GPU lists are accepted (matrix lists them) but only gpus[0] is used",
-			Adm:   func(p []int, c class) bool { return p[0]%8 == 0 && p[0] >= 8 },
-			Cost:  func(p []int) int { return p[0] * p[0] * p[0] },
+			Sizes:      [][]int{{8, 0}, {16, 0}, {16, 5}, {24, 0}, {40, 3}},
+			Admit:      "node must be a multiple of the 8x8 block: exec() rounds the grid AND the numNodes kernel argument up to a multiple of 8 while the buffers keep node*node elements (no guard in FloydWarshall_Kernels.cl); iter 0 or > node means node iterations (sample). Plain multi-GPU lists are accepted (matrix lists them) but only gpus[0] is used",
+			Adm:        func(p []int, c class) bool { return p[0]%8 == 0 && p[0] >= 8 },
+			Cost:       func(p []int) int { return p[0] * p[0] * p[0] },
 			PlainMulti: true, Splits: false, UnifiedMem: true, TimingList: tlFull, Oracle: oVerify,
 			Build: func(d *driver.Driver, a arch.Type, p []int) benchmarks.Benchmark {
 				b := floydwarshall.NewBenchmark(d)
@@ -217,10 +258,10 @@ func workloads() []*workload {
 		{
 			Name: "matrixtranspose", Suite: "amdappsdk", Archs: both,
 			ParamNames: []string{"width"}, Anchor: []int{1024}, AnchorSrc: "cases.go: -width=1024",
-			Sizes: [][]int{{64}, {128}, {192}, {256}, {512}},
-			Admit: "width must be a multiple of 64*nGPUs: 4 elements per work-item and 16x16 groups (no guard in MatrixTranspose_Kernels.cl), and exec() gives each GPU numWGWidth/nGPUs group columns (integer division)",
-			Adm:   func(p []int, c class) bool { return p[0] > 0 && p[0]%(64*c.nPlain()) == 0 },
-			Cost:  func(p []int) int { return p[0] * p[0] / 4 },
+			Sizes:      [][]int{{64}, {128}, {192}, {256}, {512}},
+			Admit:      "width must be a multiple of 64*nGPUs: 4 elements per work-item and 16x16 groups (no guard in MatrixTranspose_Kernels.cl), and exec() gives each GPU numWGWidth/nGPUs group columns (integer division)",
+			Adm:        func(p []int, c class) bool { return p[0] > 0 && p[0]%(64*c.nPlain()) == 0 },
+			Cost:       func(p []int) int { return p[0] * p[0] / 4 },
 			PlainMulti: true, Splits: true, UnifiedMem: true, TimingList: tlFull, Oracle: oVerify,
 			Build: func(d *driver.Driver, a arch.Type, p []int) benchmarks.Benchmark {
 				b := matrixtranspose.NewBenchmark(d)
@@ -251,11 +292,12 @@ func workloads() []*workload {
 		{
 			Name: "simpleconvolution", Suite: "amdappsdk", Archs: both,
 			ParamNames: []string{"width", "height", "mask"}, Anchor: []int{254, 254, 3}, AnchorSrc: "sample default (matrix passes no size)",
-			Sizes: [][]int{{1, 1, 3}, {30, 17, 3}, {62, 62, 3}, {33, 31, 5}, {126, 34, 3}},
-			Admit: "any width, height >= 1 and mask >= 3: simpleNonSeparableConvolution returns for x>=width||y>=height, the host pads the input by mask-1 and launches (w+pad)*(h+pad)/nGPUs work-items per GPU (partial group by the grid builder); with mask >= 3 the padding exceeds what the integer division by nGPUs drops",
-			Adm:   func(p []int, c class) bool { return p[0] >= 1 && p[1] >= 1 && p[2] >= 3 && p[2]%2 == 1 },
-			Cost:  func(p []int) int { return p[0] * p[1] * p[2] * p[2] },
+			Sizes:      [][]int{{1, 1, 3}, {30, 17, 3}, {62, 62, 3}, {33, 31, 5}, {126, 34, 3}},
+			Admit:      "any width, height >= 1 and mask >= 3: simpleNonSeparableConvolution returns for x>=width||y>=height, the host pads the input by mask-1 and launches (w+pad)*(h+pad)/nGPUs work-items per GPU (partial group by the grid builder); with mask >= 3 the padding exceeds what the integer division by nGPUs drops",
+			Adm:        func(p []int, c class) bool { return p[0] >= 1 && p[1] >= 1 && p[2] >= 3 && p[2]%2 == 1 },
+			Cost:       func(p []int) int { return p[0] * p[1] * p[2] * p[2] },
 			PlainMulti: true, Splits: true, UnifiedMem: true, TimingList: tlFull, Oracle: oVerify,
+			Quar: hipIgnoresGlobalOffset,
 			Build: func(d *driver.Driver, a arch.Type, p []int) benchmarks.Benchmark {
 				b := simpleconvolution.NewBenchmark(d)
 				b.Width, b.Height, b.Arch = uint32(p[0]), uint32(p[1]), a
@@ -267,11 +309,12 @@ func workloads() []*workload {
 		{
 			Name: "aes", Suite: "heteromark", Archs: both,
 			ParamNames: []string{"length"}, Anchor: []int{16384}, AnchorSrc: "cases.go: -length=16384",
-			Sizes: [][]int{{64}, {1024}, {1600}, {4160}, {16384}},
-			Admit: "length must be a multiple of 16*nGPUs: one work-item per 16-byte block, grid = length/16/nGPUs exactly (kernels.cl has no guard, none is needed); 1600 and 4160 give grids that are not multiples of the 64 work-group",
-			Adm:   func(p []int, c class) bool { return p[0] >= 16*c.nPlain() && p[0]%(16*c.nPlain()) == 0 },
-			Cost:  func(p []int) int { return p[0] * 20 },
+			Sizes:      [][]int{{64}, {1024}, {1600}, {4160}, {16384}},
+			Admit:      "length must be a multiple of 16*nGPUs: one work-item per 16-byte block, grid = length/16/nGPUs exactly (kernels.cl has no guard, none is needed); 1600 and 4160 give grids that are not multiples of the 64 work-group",
+			Adm:        func(p []int, c class) bool { return p[0] >= 16*c.nPlain() && p[0]%(16*c.nPlain()) == 0 },
+			Cost:       func(p []int) int { return p[0] * 20 },
 			PlainMulti: true, Splits: true, UnifiedMem: true, TimingList: tlFull, Oracle: oVerify,
+			Quar: hipIgnoresGlobalOffset,
 			Build: func(d *driver.Driver, a arch.Type, p []int) benchmarks.Benchmark {
 				b := aes.NewBenchmark(d)
 				b.Arch, b.Length = a, p[0]
@@ -283,9 +326,12 @@ func workloads() []*workload {
 			ParamNames: []string{"length", "taps"}, Anchor: []int{8192, 16}, AnchorSrc: "cases.go: -length=8192 (taps default 16)",
 			Sizes: [][]int{{4, 16}, {100, 16}, {1028, 3}, {1024, 16}, {8192, 16}},
 			Admit: "length must be a multiple of nGPUs: grid = length/nGPUs exactly, work-group 256 (partial group by the grid builder), kernels.cl reads input[tid-i] only for tid>=i; taps >= 1 (the history buffer holds taps floats). length <= 8192 keeps the float32 sums exact as at the anchor",
-			Adm:   func(p []int, c class) bool { return p[0] >= c.nPlain() && p[0]%c.nPlain() == 0 && p[1] >= 1 && p[0] <= 8192 },
-			Cost:  func(p []int) int { return p[0] * p[1] },
+			Adm: func(p []int, c class) bool {
+				return p[0] >= c.nPlain() && p[0]%c.nPlain() == 0 && p[1] >= 1 && p[0] <= 8192
+			},
+			Cost:       func(p []int) int { return p[0] * p[1] },
 			PlainMulti: true, Splits: true, UnifiedMem: true, TimingList: tlFull, Oracle: oVerify,
+			Quar: hipIgnoresGlobalOffset,
 			Build: func(d *driver.Driver, a arch.Type, p []int) benchmarks.Benchmark {
 				b := fir.NewBenchmark(d)
 				b.Length, b.NumTapsParam, b.Arch = p[0], p[1], a
@@ -302,6 +348,7 @@ func workloads() []*workload {
 			},
 			Cost:       func(p []int) int { return p[0] * p[1] * p[2] * p[3] },
 			PlainMulti: true, Splits: true, UnifiedMem: true, TimingList: tlFull, Oracle: oVerify,
+			Quar: hipIgnoresGlobalOffset,
 			Build: func(d *driver.Driver, a arch.Type, p []int) benchmarks.Benchmark {
 				b := kmeans.NewBenchmark(d)
 				b.Arch, b.NumPoints, b.NumFeatures, b.NumClusters, b.MaxIter = a, p[0], p[1], p[2], p[3]
@@ -311,10 +358,10 @@ func workloads() []*workload {
 		{
 			Name: "pagerank", Suite: "heteromark", Archs: both,
 			ParamNames: []string{"node", "connections", "iterations"}, Anchor: []int{64, 2048, 2}, AnchorSrc: "cases.go: -node=64 -sparsity=0.5 -iterations=2 (connections = node*node*sparsity)",
-			Sizes: [][]int{{4, 8, 1}, {16, 64, 2}, {33, 200, 3}, {64, 2048, 2}, {100, 1000, 2}},
-			Admit: "node >= 1, node <= connections <= node*node (sample's own clamp), iterations >= 1: one 64-lane group per row, kernels.cl guards row < num_rows. Plain multi-GPU lists accepted (matrix lists them); the kernel runs on the context's GPU",
-			Adm:   func(p []int, c class) bool { return p[0] >= 1 && p[1] >= p[0] && p[1] <= p[0]*p[0] && p[2] >= 1 },
-			Cost:  func(p []int) int { return (p[0]*64 + p[1]) * p[2] * 4 },
+			Sizes:      [][]int{{4, 8, 1}, {16, 64, 2}, {33, 200, 3}, {64, 2048, 2}, {100, 1000, 2}},
+			Admit:      "node >= 1, node <= connections <= node*node (sample's own clamp), iterations >= 1: one 64-lane group per row, kernels.cl guards row < num_rows. Plain multi-GPU lists accepted (matrix lists them); the kernel runs on the context's GPU",
+			Adm:        func(p []int, c class) bool { return p[0] >= 1 && p[1] >= p[0] && p[1] <= p[0]*p[0] && p[2] >= 1 },
+			Cost:       func(p []int) int { return (p[0]*64 + p[1]) * p[2] * 4 },
 			PlainMulti: true, Splits: false, UnifiedMem: true, TimingList: tlFull, Oracle: oVerify,
 			Build: func(d *driver.Driver, a arch.Type, p []int) benchmarks.Benchmark {
 				b := pagerank.NewBenchmark(d)
@@ -326,10 +373,10 @@ func workloads() []*workload {
 		{
 			Name: "atax", Suite: "polybench", Archs: both,
 			ParamNames: []string{"x", "y"}, Anchor: []int{256, 256}, AnchorSrc: "cases.go: -x=256 -y=256",
-			Sizes: [][]int{{1, 1}, {33, 33}, {100, 100}, {256, 256}, {300, 300}},
-			Admit: "square only (x == y as at the anchor): the host allocates x[] with NX elements but the device buffer and both kernels index it by NY; within square sizes any n >= 1 (atax.cl guards i<nx / j<ny, grid rounded up to 256 by the host)",
-			Adm:   func(p []int, c class) bool { return p[0] == p[1] && p[0] >= 1 },
-			Cost:  func(p []int) int { return p[0] * p[1] * 2 },
+			Sizes:      [][]int{{1, 1}, {33, 33}, {100, 100}, {256, 256}, {300, 300}},
+			Admit:      "square only (x == y as at the anchor): the host allocates x[] with NX elements but the device buffer and both kernels index it by NY; within square sizes any n >= 1 (atax.cl guards i<nx / j<ny, grid rounded up to 256 by the host)",
+			Adm:        func(p []int, c class) bool { return p[0] == p[1] && p[0] >= 1 },
+			Cost:       func(p []int) int { return p[0] * p[1] * 2 },
 			PlainMulti: true, Splits: false, UnifiedMem: true, TimingList: tlFull, Oracle: oVerify,
 			Build: func(d *driver.Driver, a arch.Type, p []int) benchmarks.Benchmark {
 				b := atax.NewBenchmark(d)
@@ -340,10 +387,10 @@ func workloads() []*workload {
 		{
 			Name: "bicg", Suite: "polybench", Archs: both,
 			ParamNames: []string{"x", "y"}, Anchor: []int{256, 256}, AnchorSrc: "cases.go: -x=256 -y=256",
-			Sizes: [][]int{{1, 1}, {33, 70}, {100, 100}, {256, 256}, {300, 40}},
-			Admit: "any x, y >= 1: bicg.cl guards i<nx / j<ny, the host rounds both grids up to 256, all buffers are sized consistently (r,q: NX; p,s: NY)",
-			Adm:   func(p []int, c class) bool { return p[0] >= 1 && p[1] >= 1 },
-			Cost:  func(p []int) int { return p[0] * p[1] * 2 },
+			Sizes:      [][]int{{1, 1}, {33, 70}, {100, 100}, {256, 256}, {300, 40}},
+			Admit:      "any x, y >= 1: bicg.cl guards i<nx / j<ny, the host rounds both grids up to 256, all buffers are sized consistently (r,q: NX; p,s: NY)",
+			Adm:        func(p []int, c class) bool { return p[0] >= 1 && p[1] >= 1 },
+			Cost:       func(p []int) int { return p[0] * p[1] * 2 },
 			PlainMulti: true, Splits: false, UnifiedMem: true, TimingList: tlFull, Oracle: oVerify,
 			Build: func(d *driver.Driver, a arch.Type, p []int) benchmarks.Benchmark {
 				b := bicg.NewBenchmark(d)
@@ -355,11 +402,17 @@ func workloads() []*workload {
 		{
 			Name: "nw", Suite: "rodinia", Archs: both,
 			ParamNames: []string{"length"}, Anchor: []int{64}, AnchorSrc: "cases.go: -length=64",
-			Sizes: [][]int{{64}, {128}, {192}},
-			Admit: "length must be a multiple of the 64 block: runKernel1/2 launch workSize/64 diagonal blocks (integer division), nothing covers a tail. SelectGPU panics for more than one GPU (unified GPU is one id)",
-			Adm:   func(p []int, c class) bool { return p[0] >= 64 && p[0]%64 == 0 },
-			Cost:  func(p []int) int { return p[0] * p[0] * 4 },
+			Sizes:      [][]int{{64}, {128}, {192}, {256}},
+			Admit:      "length must be a multiple of the 64 block: runKernel1/2 launch workSize/64 diagonal blocks (integer division), nothing covers a tail. SelectGPU panics for more than one GPU (unified GPU is one id)",
+			Adm:        func(p []int, c class) bool { return p[0] >= 64 && p[0]%64 == 0 },
+			Cost:       func(p []int) int { return p[0] * p[0] * 4 },
 			PlainMulti: false, Splits: false, UnifiedMem: true, TimingList: tlNone, Oracle: oVerify,
+			Quar: func(p []int, c class) string {
+				if p[0] >= 192 {
+					return "three-or-more-blocks"
+				}
+				return ""
+			},
 			Build: func(d *driver.Driver, a arch.Type, p []int) benchmarks.Benchmark {
 				b := nw.NewBenchmark(d)
 				b.Arch = a
@@ -371,10 +424,10 @@ func workloads() []*workload {
 		{
 			Name: "bfs", Suite: "shoc", Archs: both,
 			ParamNames: []string{"node", "degree"}, Anchor: []int{1024, 3}, AnchorSrc: "cases.go: -node=1024 (degree default 3)",
-			Sizes: [][]int{{2, 1}, {64, 3}, {1000, 3}, {1024, 3}, {1030, 2}},
-			Admit: "node >= 2 (the generator links to other nodes), degree >= 1 and < node: grid rounded up to 1024 by the host, kernels.cl guards tid < numNodes. SelectGPU panics for more than one GPU",
-			Adm:   func(p []int, c class) bool { return p[0] >= 2 && p[1] >= 1 && p[1] < p[0] },
-			Cost:  func(p []int) int { return (p[0] + 1024) * 40 },
+			Sizes:      [][]int{{2, 1}, {64, 3}, {1000, 3}, {1024, 3}, {1030, 2}},
+			Admit:      "node >= 2 (the generator links to other nodes), degree >= 1 and < node: grid rounded up to 1024 by the host, kernels.cl guards tid < numNodes. SelectGPU panics for more than one GPU",
+			Adm:        func(p []int, c class) bool { return p[0] >= 2 && p[1] >= 1 && p[1] < p[0] },
+			Cost:       func(p []int) int { return (p[0] + 1024) * 40 },
 			PlainMulti: false, Splits: false, UnifiedMem: true, TimingList: tlBFS, Oracle: oVerify,
 			Build: func(d *driver.Driver, a arch.Type, p []int) benchmarks.Benchmark {
 				b := bfs.NewBenchmark(d)
@@ -385,10 +438,10 @@ func workloads() []*workload {
 		{
 			Name: "fft", Suite: "shoc", Archs: both,
 			ParamNames: []string{"bytes"}, Anchor: []int{1 << 20}, AnchorSrc: "cases.go: -MB=1",
-			Sizes: [][]int{{8192}, {20000}, {65536}, {1 << 20}},
-			Admit: "bytes >= 8192 (sample flag -bytes): initMem() derives the number of 512-point transforms by integer division and sizes buffers and grid from that (host rounds down), 64 work-items per transform",
-			Adm:   func(p []int, c class) bool { return p[0] >= 8192 },
-			Cost:  func(p []int) int { return p[0] * 6 },
+			Sizes:      [][]int{{8192}, {20000}, {65536}, {1 << 20}},
+			Admit:      "bytes >= 8192 (sample flag -bytes): initMem() derives the number of 512-point transforms by integer division and sizes buffers and grid from that (host rounds down), 64 work-items per transform",
+			Adm:        func(p []int, c class) bool { return p[0] >= 8192 },
+			Cost:       func(p []int) int { return p[0] * 6 },
 			PlainMulti: true, Splits: false, UnifiedMem: true, TimingList: tlFull, Oracle: oVerify,
 			Build: func(d *driver.Driver, a arch.Type, p []int) benchmarks.Benchmark {
 				b := fft.NewBenchmark(d)
@@ -399,11 +452,17 @@ func workloads() []*workload {
 		{
 			Name: "spmv", Suite: "shoc", Archs: both,
 			ParamNames: []string{"dim", "permille"}, Anchor: []int{128, 10}, AnchorSrc: "sample default -dim=128 -sparsity=0.01 (matrix passes no size)",
-			Sizes: [][]int{{16, 100}, {100, 50}, {128, 10}, {130, 30}, {1025, 2}},
-			Admit: "dim >= 1 and dim*dim*sparsity >= 1: grid = dim exactly, work-group 128 (partial group by the grid builder), spmv.cl guards myRow < dim",
-			Adm:   func(p []int, c class) bool { return p[0] >= 1 && p[0]*p[0]*p[1]/1000 >= 1 && p[1] <= 1000 },
-			Cost:  func(p []int) int { return p[0]*40 + p[0]*p[0]*p[1]/100 },
+			Sizes:      [][]int{{16, 100}, {100, 50}, {128, 10}, {130, 30}, {256, 10}, {1025, 2}},
+			Admit:      "dim >= 1 and dim*dim*sparsity >= 1: grid = dim exactly, work-group 128 (partial group by the grid builder), spmv.cl guards myRow < dim",
+			Adm:        func(p []int, c class) bool { return p[0] >= 1 && p[0]*p[0]*p[1]/1000 >= 1 && p[1] <= 1000 },
+			Cost:       func(p []int) int { return p[0]*40 + p[0]*p[0]*p[1]/100 },
 			PlainMulti: true, Splits: false, UnifiedMem: true, TimingList: tlSPMV, Oracle: oVerify,
+			Quar: func(p []int, c class) string {
+				if c.Arch == "cdna3" && p[0] > 128 {
+					return "cdna3-more-than-one-work-group"
+				}
+				return ""
+			},
 			Build: func(d *driver.Driver, a arch.Type, p []int) benchmarks.Benchmark {
 				b := spmv.NewBenchmark(d)
 				b.Dim, b.Sparsity, b.Arch = int32(p[0]), float64(p[1])/1000, a
@@ -415,8 +474,10 @@ func workloads() []*workload {
 			ParamNames: []string{"row", "col", "iter"}, Anchor: []int{64, 64, 1}, AnchorSrc: "sample default (matrix passes no size)",
 			Sizes: [][]int{{16, 64, 1}, {32, 64, 2}, {64, 64, 1}, {16, 128, 1}, {48, 192, 2}},
 			Admit: "row multiple of 16, col multiple of 64: one work-item per interior column in groups of 64, 16 rows per group; StencilKernel derives the row pitch from get_num_groups(1)*64 and has no guard, the host launches (rows-2)/16 row groups (integer division)",
-			Adm:   func(p []int, c class) bool { return p[0] >= 16 && p[0]%16 == 0 && p[1] >= 64 && p[1]%64 == 0 && p[2] >= 1 },
-			Cost:  func(p []int) int { return p[0] * p[1] * p[2] * 30 },
+			Adm: func(p []int, c class) bool {
+				return p[0] >= 16 && p[0]%16 == 0 && p[1] >= 64 && p[1]%64 == 0 && p[2] >= 1
+			},
+			Cost:       func(p []int) int { return p[0] * p[1] * p[2] * 30 },
 			PlainMulti: true, Splits: false, UnifiedMem: true, TimingList: tlFull, Oracle: oVerify,
 			Build: func(d *driver.Driver, a arch.Type, p []int) benchmarks.Benchmark {
 				b := stencil2d.NewBenchmark(d)
@@ -428,11 +489,12 @@ func workloads() []*workload {
 		{
 			Name: "relu", Suite: "dnn-layer", Archs: both,
 			ParamNames: []string{"length"}, Anchor: []int{4096}, AnchorSrc: "sample default (matrix passes no size)",
-			Sizes: [][]int{{4}, {100}, {1028}, {4096}, {4100}},
-			Admit: "length must be a multiple of nGPUs: grid = length/nGPUs exactly (partial group by the grid builder), kernels.cl guards index < count",
-			Adm:   func(p []int, c class) bool { return p[0] >= c.nPlain() && p[0]%c.nPlain() == 0 },
-			Cost:  func(p []int) int { return p[0] * 4 },
+			Sizes:      [][]int{{4}, {100}, {1028}, {4096}, {4100}},
+			Admit:      "length must be a multiple of nGPUs: grid = length/nGPUs exactly (partial group by the grid builder), kernels.cl guards index < count",
+			Adm:        func(p []int, c class) bool { return p[0] >= c.nPlain() && p[0]%c.nPlain() == 0 },
+			Cost:       func(p []int) int { return p[0] * 4 },
 			PlainMulti: true, Splits: true, UnifiedMem: true, TimingList: tlFull, Oracle: oVerify,
+			Quar: hipIgnoresGlobalOffset,
 			Build: func(d *driver.Driver, a arch.Type, p []int) benchmarks.Benchmark {
 				b := relu.NewBenchmark(d)
 				b.Arch, b.Length = a, p[0]
@@ -442,13 +504,22 @@ func workloads() []*workload {
 		{
 			Name: "conv2d", Suite: "dnn-layer", Archs: both,
 			ParamNames: []string{"n", "c", "h", "w", "outc", "k", "pad", "stride", "backward"}, Anchor: []int{1, 1, 28, 28, 3, 3, 0, 1, 0}, AnchorSrc: "sample default (not in the matrix)",
-			Sizes: [][]int{{1, 1, 5, 5, 1, 3, 0, 1, 0}, {1, 1, 8, 8, 2, 3, 1, 1, 1}, {2, 2, 9, 7, 3, 3, 1, 2, 0}, {1, 1, 28, 28, 3, 3, 0, 1, 0}},
+			Sizes: [][]int{{1, 1, 5, 5, 1, 3, 0, 1, 0}, {1, 1, 8, 8, 2, 3, 1, 1, 1}, {2, 1, 9, 7, 3, 3, 1, 2, 0}, {2, 2, 9, 7, 3, 3, 1, 2, 0}, {1, 1, 28, 28, 3, 3, 0, 1, 0}},
 			Admit: "kernel <= h+2*pad and <= w+2*pad, stride >= 1 (output size formula of the layer); all gputensor kernels guard their element index. Single GPU only (SelectGPU panics)",
 			Adm: func(p []int, c class) bool {
 				return p[5] <= p[2]+2*p[6] && p[5] <= p[3]+2*p[6] && p[7] >= 1 && p[0] >= 1 && p[1] >= 1 && p[4] >= 1
 			},
 			Cost:       func(p []int) int { return p[0] * p[1] * p[2] * p[3] * p[4] * p[5] * p[5] * 40 * (1 + 2*p[8]) },
 			PlainMulti: false, Splits: false, UnifiedMem: true, TimingList: tlNone, Oracle: oCrossVer,
+			Quar: func(p []int, c class) string {
+				if c.Arch == "cdna3" && p[8] == 1 {
+					return "cdna3-backward"
+				}
+				if c.Arch == "cdna3" && p[1] >= 2 {
+					return "cdna3-two-or-more-input-channels"
+				}
+				return ""
+			},
 			Build: func(d *driver.Driver, a arch.Type, p []int) benchmarks.Benchmark {
 				b := conv2d.NewBenchmark(d)
 				b.N, b.C, b.H, b.W, b.KernelChannel = p[0], p[1], p[2], p[3], p[4]
@@ -460,7 +531,7 @@ func workloads() []*workload {
 		{
 			Name: "im2col", Suite: "dnn-layer", Archs: both,
 			ParamNames: []string{"n", "c", "h", "w", "k", "pad", "stride", "dilate"}, Anchor: []int{1, 1, 28, 28, 3, 0, 1, 1}, AnchorSrc: "sample default (not in the matrix)",
-			Sizes: [][]int{{1, 1, 3, 3, 3, 0, 1, 1}, {1, 2, 9, 7, 3, 1, 2, 1}, {2, 1, 10, 10, 3, 1, 1, 2}, {1, 1, 28, 28, 3, 0, 1, 1}},
+			Sizes: [][]int{{1, 1, 3, 3, 3, 0, 1, 1}, {1, 2, 9, 9, 3, 1, 2, 1}, {1, 2, 9, 7, 3, 1, 2, 1}, {2, 1, 10, 10, 3, 1, 1, 2}, {1, 1, 28, 28, 3, 0, 1, 1}},
 			Admit: "effective kernel (dilate*(k-1)+1) <= h+2*pad and <= w+2*pad, stride, dilate >= 1. Single GPU only (SelectGPU panics)",
 			Adm: func(p []int, c class) bool {
 				ek := p[7]*(p[4]-1) + 1
@@ -468,6 +539,12 @@ func workloads() []*workload {
 			},
 			Cost:       func(p []int) int { return p[0] * p[1] * p[2] * p[3] * p[4] * p[4] * 30 },
 			PlainMulti: false, Splits: false, UnifiedMem: true, TimingList: tlNone, Oracle: oCrossVer,
+			Quar: func(p []int, c class) string {
+				if p[2] != p[3] {
+					return "non-square-input"
+				}
+				return ""
+			},
 			Build: func(d *driver.Driver, a arch.Type, p []int) benchmarks.Benchmark {
 				b := im2col.NewBenchmark(d)
 				b.N, b.C, b.H, b.W = p[0], p[1], p[2], p[3]
@@ -479,11 +556,11 @@ func workloads() []*workload {
 		{
 			Name: "xor", Suite: "dnn-training", Archs: []string{"gcn3"}, // the benchmark has no Arch field; its operator stays GCN3
 			ParamNames: []string{}, Anchor: []int{}, AnchorSrc: "fixed network, 50 epochs of one batch of 4",
-			Sizes: [][]int{{}},
-			Admit: "no parameters. Verify() panics 'not implemented' and unified memory panics, so the run is made without -verify; the oracle is the operator cross-check the benchmark always enables. Single GPU only",
-			Adm:   func(p []int, c class) bool { return true },
-			Cost:  func(p []int) int { return 400000 },
-			PlainMulti: false, Splits: false, UnifiedMem: false, TimingList: tlNone, Oracle: oCross,
+			Sizes:      [][]int{{}},
+			Admit:      "no parameters. Verify() panics 'not implemented' and unified memory panics, so the run is made without -verify; the oracle is the operator cross-check the benchmark always enables. Single GPU only",
+			Adm:        func(p []int, c class) bool { return true },
+			Cost:       func(p []int) int { return 400000 },
+			PlainMulti: false, Splits: false, UnifiedMem: false, TimingList: tlSingle, Oracle: oCross,
 			Build: func(d *driver.Driver, a arch.Type, p []int) benchmarks.Benchmark { return xor.NewBenchmark(d) },
 		},
 		{
@@ -491,9 +568,11 @@ func workloads() []*workload {
 			ParamNames: []string{"batch", "batches", "epoch"}, Anchor: []int{32, 2, 1}, AnchorSrc: "sample default -batch-size=32 -max-batch-per-epoch=2 -epoch=1",
 			Sizes: [][]int{{1, 1, 1}, {2, 1, 1}, {3, 2, 1}},
 			Admit: "batch, batches, epoch >= 1 (tiny counts for cost). MNIST is not shipped; the child writes an MNIST-format file pair with seeded pixel/label bytes and passes -mnist-data-folder. Verify() is 'not implemented': run without -verify, EnableVerification=true (operator cross-check). Multi-GPU = data parallel over gpus (mccl broadcast / all-reduce), batch must be a multiple of nGPUs",
-			Adm:   func(p []int, c class) bool { return p[0] >= c.nPlain() && p[0]%c.nPlain() == 0 && p[1] >= 1 && p[2] >= 1 },
-			Cost:  func(p []int) int { return 3000000 * p[0] * p[1] * p[2] },
-			PlainMulti: true, Splits: true, UnifiedMem: false, TimingList: tlNone, Oracle: oCross, NeedsMNIST: true,
+			Adm: func(p []int, c class) bool {
+				return p[0] >= c.nPlain() && p[0]%c.nPlain() == 0 && p[1] >= 1 && p[2] >= 1
+			},
+			Cost:       func(p []int) int { return 3000000 * p[0] * p[1] * p[2] },
+			PlainMulti: true, Splits: true, UnifiedMem: false, TimingList: tlSingle, Oracle: oCross, NeedsMNIST: true,
 			Build: func(d *driver.Driver, a arch.Type, p []int) benchmarks.Benchmark {
 				b := lenet.NewBenchmark(d)
 				b.BatchSize, b.MaxBatchPerEpoch, b.Epoch, b.EnableVerification = p[0], p[1], p[2], true
@@ -505,9 +584,11 @@ func workloads() []*workload {
 			ParamNames: []string{"batch", "batches", "epoch"}, Anchor: []int{32, 2, 1}, AnchorSrc: "sample default -batch-size=32 -max-batch-per-epoch=2 -epoch=1",
 			Sizes: [][]int{{1, 1, 1}, {2, 1, 1}, {4, 2, 1}},
 			Admit: "as lenet (fully connected 784-256-100-100-10 network on MNIST-format data)",
-			Adm:   func(p []int, c class) bool { return p[0] >= c.nPlain() && p[0]%c.nPlain() == 0 && p[1] >= 1 && p[2] >= 1 },
-			Cost:  func(p []int) int { return 3000000 * p[0] * p[1] * p[2] },
-			PlainMulti: true, Splits: true, UnifiedMem: false, TimingList: tlNone, Oracle: oCross, NeedsMNIST: true,
+			Adm: func(p []int, c class) bool {
+				return p[0] >= c.nPlain() && p[0]%c.nPlain() == 0 && p[1] >= 1 && p[2] >= 1
+			},
+			Cost:       func(p []int) int { return 3000000 * p[0] * p[1] * p[2] },
+			PlainMulti: true, Splits: true, UnifiedMem: false, TimingList: tlSingle, Oracle: oCross, NeedsMNIST: true,
 			Build: func(d *driver.Driver, a arch.Type, p []int) benchmarks.Benchmark {
 				b := minerva.NewBenchmark(d)
 				b.BatchSize, b.MaxBatchPerEpoch, b.Epoch, b.EnableVerification = p[0], p[1], p[2], true
@@ -517,9 +598,9 @@ func workloads() []*workload {
 		{
 			Name: "vgg16", Suite: "dnn-training", Archs: []string{"gcn3"},
 			ParamNames: []string{"batch", "batches", "epoch"}, Anchor: []int{8, 2, 1}, AnchorSrc: "sample default",
-			Sizes: [][]int{},
-			Admit: "linked but never run: needs the tiny-imagenet directory tree (dataset/imagenet/data/download.sh; not shipped, no flag to point elsewhere) and 13 convolution layers on 64x64x3 images are far beyond an emulation budget",
-			Adm:   func(p []int, c class) bool { return false },
+			Sizes:  [][]int{},
+			Admit:  "linked but never run: needs the tiny-imagenet directory tree (dataset/imagenet/data/download.sh; not shipped, no flag to point elsewhere) and 13 convolution layers on 64x64x3 images are far beyond an emulation budget",
+			Adm:    func(p []int, c class) bool { return false },
 			Oracle: oCross,
 			Build: func(d *driver.Driver, a arch.Type, p []int) benchmarks.Benchmark {
 				b := vgg16.NewBenchmark(d)
@@ -607,6 +688,8 @@ func (w *workload) classes() []class {
 						ok = g.n == 1 || g.ug
 					case tlSPMV:
 						ok = !um
+					case tlSingle:
+						ok = g.n == 1 && !um
 					}
 					if ok {
 						out = append(out, c)
